@@ -343,6 +343,11 @@ func (s *grpcServer) fillDirectories(ctx context.Context, resp *pb.GetTreeRespon
 	// Recursively append all the child dirs.
 	for _, dirNode := range dir.Directories {
 
+		if dirNode == nil || dirNode.Digest == nil {
+			s.accessLogger.Printf("GRPC GETTREEREQUEST BAD BLOB: DirectoryNode without a digest")
+			continue
+		}
+
 		err := s.validateHash(dirNode.Digest.Hash, dirNode.Digest.SizeBytes, errorPrefix)
 		if err != nil {
 			return err
